@@ -240,6 +240,9 @@ pub fn wide_inner(k: u64) -> bool {
     k % 3 == 1
 }
 
+/// length of the chain of constants that depend on script functions (`ge8()` is used by `f`)
+const CHAIN: u64 = 8;
+
 pub fn many_constants(k: u64) -> u64 {
     if k == 6 { 72 } else { 0 }
 }
@@ -278,13 +281,21 @@ fn script_base(m: u64, k: u64, broken: bool) -> String {
     let decl_c = format!("const {c}: Tr = mk({c0});");
     let decl_d = format!("const {d}: Tr = {c};");
     let (first, second) = if k % 2 == 1 { (decl_d, decl_c) } else { (decl_c, decl_d) };
+    // A chain of small constants whose initialisers call script functions that read the earlier
+    // ones: each getter is compiled (with the address of its constant in it) before the later
+    // constants exist, so storage for constants that moves when more are added is a stale read.
+    // ge_n() = 2^n * (k + 1) - 1.
+    let mut chain = format!("const E0: u64 = {k};\nfn ge0() -> u64 {{ E0 }}\n");
+    for i in 1..=CHAIN {
+        chain.push_str(&format!("const E{i}: u64 = ge{}() + 1;\nfn ge{i}() -> u64 {{ E{i} + ge{}() }}\n", i - 1, i - 1));
+    }
     format!(
         r#"record Rec{k} {{ n: u64, t: Tr, s: String }}
 record Plain {{ a: u64, b: u64, c: u64 }}
 record Inner {{ ia: u64, ib: {inner_ty}, ic: {inner_ty} }}
 record Outer {{ i: Inner, z: u64 }}
 const PC: Plain = Plain {{ a: {k}, b: 2, c: 3 }};
-{first}
+{chain}{first}
 const {rc}: Rec{k} = Rec{k} {{ n: {k}, t: mk({c3}), s: "r{k}" }};
 {second}
 const {s}: String = "v{k}";
@@ -320,7 +331,7 @@ fn f(x: u64) -> u64 {{
     acc = acc + val(K) + cap() + {l}.len();
     acc = acc + {lt}.len() + opt_{k}() + rc.n;
     acc = acc + val(rc.t) + ko_{k}() + KL.len();
-    acc = acc + ex_{k}() + many_{k}();
+    acc = acc + ex_{k}() + many_{k}() + ge8();
     let pl = PC;
     pl.a = pl.a + x;
     // (three values of the record whose nested record differs between versions, all alive at once)
@@ -864,7 +875,7 @@ fn exec_inner(op: &LifeOp) -> bool {
                     };
                     let log = take_hostlog();
                     let many: u64 = (0..many_constants(k)).filter(|i| i % 10 != 9).map(|i| i + k).sum();
-                    let want = x.wrapping_mul(k) + 2 * c + (200 + rid) + (100 + rid) + 2 + 1 + (c + 2) + k + (c + 3) + (300 + rid) + 2 + extras.iter().sum::<u64>() + many + (600 + rid) + (700 + rid) + (k + x) + 3 + x + 5 + (x + 1 + 7) + (x + 2 + 9) + 150 + (11 + rid) + 55 + 1 + 1 + 4;
+                    let want = x.wrapping_mul(k) + 2 * c + (200 + rid) + (100 + rid) + 2 + 1 + (c + 2) + k + (c + 3) + (300 + rid) + 2 + extras.iter().sum::<u64>() + many + (600 + rid) + (700 + rid) + (k + x) + 3 + x + 5 + (x + 1 + 7) + (x + 2 + 9) + 150 + (11 + rid) + 55 + 1 + 1 + 4 + (256 * (k + 1) - 1);
                     let mut want_log: Vec<(&str, u64)> = vec![("log", *x), ("val", c), ("val", c), ("val", 200 + rid), ("cap", 100 + rid), ("val", c + 2), ("val", c + 3), ("val", 300 + rid)];
                     want_log.extend(extras.iter().map(|p| if *p >= 6000 { ("cap", *p) } else { ("val", *p) }));
                     want_log.push(("cap", 600 + rid));
